@@ -18,6 +18,7 @@ def check(ctx):
     scopes.rule_not_send(ctx, facts, "R1")
     witness.run(ctx, "R1", ["send_guard", "send_local_span", "send_local_collector", "sync_guard"])
     scopes.rule_scope_pairing(ctx, facts, "R2")
+    scopes.rule_scope_always_opened(ctx, facts, "R2")
     provrules.rule_scope_parent(ctx, facts, "R3")
     scopes.rule_epochs(ctx, facts, "R3")
     scopes.rule_inert_without_scope(ctx, facts, "R4")
